@@ -42,6 +42,33 @@ type pagingCase struct {
 	IDs     [][]int `json:"ids"`
 	Expect  string  `json:"expect"`
 	Lens    []int   `json:"lens"` // reference page lengths
+	Segs    []seg   `json:"segs"` // hist: (writes, then a walk) twice
+}
+
+// seg is one segment of a history: writes applied to the collection, then a walk
+// from the first page with the given page size.
+type seg struct {
+	Ops  []writeOp `json:"ops"`
+	Size int       `json:"size"`
+}
+
+// writeOp is one write of spec/Paging.tla: kind, the key it names, allow-missing.
+type writeOp struct {
+	Kind string `json:"kind"`
+	Key  []int  `json:"key"`
+	AM   bool   `json:"am"`
+}
+
+// writeObs is what the write did on the real model.
+type writeObs struct {
+	Kind string `json:"kind"`
+	Key  []int  `json:"key"`
+	AM   bool   `json:"am"`
+	Sup  bool   `json:"sup"` // the trait has such an operation and it was called
+	OK   bool   `json:"ok"`  // it returned without error (and did not panic)
+	Eff  string `json:"eff"` // documented effect of a successful call on the key set: "add" | "remove" | "none"
+	Err  string `json:"err"`
+	Call string `json:"call"`
 }
 
 // walkObs is one line of obs.ndjson: what the server answered along one token chain.
@@ -65,6 +92,12 @@ type walkObs struct {
 	Totals []int  `json:"totals"` // total_size per page
 	Sorted bool   `json:"sorted"` // the un-paged listing is in ascending byte order of its keys (information)
 	Sample string `json:"sample"` // a few of the ids
+	// hist only: the collection the case started with, every write so far with its outcome, and the
+	// returned items by spec key ([0] = a key the case never wrote)
+	Init     [][]int    `json:"init"`
+	Ops      []writeObs `json:"ops"`
+	FlatKeys [][]int    `json:"flatKeys"`
+	Seg      int        `json:"seg"`
 }
 
 // page is one List answer reduced to what the property talks about.
@@ -74,13 +107,28 @@ type page struct {
 	total int
 }
 
-// target is one paged RPC: fill builds a fresh model holding ids and returns the
-// model's own un-paged listing (keys in listing order) plus the List call.
+// inst is one filled model behind one paged RPC.
+type inst struct {
+	// full is the model's own un-paged listing now (keys in listing order)
+	full func() []string
+	list func(size int32, token string) (page, error)
+	// write runs one write operation of the trait on key; nil if the trait has none.
+	// It returns the name of the call, the documented effect of a successful call on the key
+	// set, the key the item is stored under if the model chose it, and the error.
+	// call == "" means the trait has no such operation.
+	write func(kind, key string, am bool) (call, eff, stored string, err error)
+	// invents: create ignores the key and stores the item under a key of the model's choice
+	invents bool
+}
+
+// target is one paged RPC: fill builds a fresh model holding ids.
 type target struct {
 	name   string
 	scheme string
-	fill   func(ids []string, rnd *rand.Rand) (full []string, list func(size int32, token string) (page, error))
+	fill   func(ids []string, rnd *rand.Rand) *inst
 }
+
+var badMask = resource.WithUpdatePaths("no_such_field")
 
 // alphabet in ascending byte order; one number of a spec id = one character.
 // UTF-8 keeps code point order, so the spec's lexicographic order of number
@@ -111,183 +159,363 @@ func shuffled(ids []string, rnd *rand.Rand) []string {
 
 var ctx = context.Background()
 
+func litres(x float32) *traits.Consumable_Quantity {
+	return &traits.Consumable_Quantity{Unit: traits.Consumable_LITER, Amount: x}
+}
+
 func targets() []target {
 	return []target{
-		{"electric.ListModes", "lastkey", func(ids []string, rnd *rand.Rand) ([]string, func(int32, string) (page, error)) {
+		{"electric.ListModes", "lastkey", func(ids []string, rnd *rand.Rand) *inst {
 			m := electricpb.NewModel()
 			for _, id := range shuffled(ids, rnd) {
 				if err := m.AddMode(&traits.ElectricMode{Id: id, Title: "t" + id}); err != nil {
 					hx.Fatal("electric AddMode %q: %v", id, err)
 				}
 			}
-			var full []string
-			for _, x := range m.Modes() {
-				full = append(full, x.Id)
-			}
 			s := electricpb.NewModelServer(m)
-			return full, func(size int32, token string) (page, error) {
-				r, err := s.ListModes(ctx, &traits.ListModesRequest{Name: "dev", PageSize: size, PageToken: token})
-				if err != nil {
-					return page{}, err
-				}
-				p := page{next: r.NextPageToken, total: int(r.TotalSize)}
-				for _, x := range r.Modes {
-					p.keys = append(p.keys, x.Id)
-				}
-				return p, nil
+			return &inst{
+				full: func() (full []string) {
+					for _, x := range m.Modes() {
+						full = append(full, x.Id)
+					}
+					return
+				},
+				list: func(size int32, token string) (page, error) {
+					r, err := s.ListModes(ctx, &traits.ListModesRequest{Name: "dev", PageSize: size, PageToken: token})
+					if err != nil {
+						return page{}, err
+					}
+					p := page{next: r.NextPageToken, total: int(r.TotalSize)}
+					for _, x := range r.Modes {
+						p.keys = append(p.keys, x.Id)
+					}
+					return p, nil
+				},
+				write: func(kind, key string, am bool) (string, string, string, error) {
+					switch kind {
+					case "create":
+						return "Model.AddMode", "add", "", m.AddMode(&traits.ElectricMode{Id: key, Title: "new"})
+					case "update":
+						_, err := m.UpdateMode(&traits.ElectricMode{Id: key, Title: "upd", Description: "d"})
+						return "Model.UpdateMode", "none", "", err
+					case "delete":
+						return "Model.DeleteMode", "remove", "", m.DeleteMode(key, resource.WithAllowMissing(am))
+					case "badmask":
+						_, err := m.UpdateMode(&traits.ElectricMode{Id: key, Title: "x"}, badMask)
+						return "Model.UpdateMode(bad mask)", "none", "", err
+					case "refuse":
+						_, err := s.UpdateActiveMode(ctx, &traits.UpdateActiveModeRequest{Name: "dev", ActiveMode: &traits.ElectricMode{Id: key + "?"}})
+						return "UpdateActiveMode(unknown mode)", "none", "", err
+					case "use":
+						_, err := s.UpdateActiveMode(ctx, &traits.UpdateActiveModeRequest{Name: "dev", ActiveMode: &traits.ElectricMode{Id: key}})
+						return "UpdateActiveMode", "none", "", err
+					}
+					return "", "", "", nil
+				},
 			}
 		}},
-		{"hail.ListHails", "lastkey", func(ids []string, rnd *rand.Rand) ([]string, func(int32, string) (page, error)) {
+		{"hail.ListHails", "lastkey", func(ids []string, rnd *rand.Rand) *inst {
 			// CreateHail always invents the id; chosen ids go in as initial records
 			opts := []resource.Option{hailpb.WithKeepAlive(-1)}
 			for _, id := range shuffled(ids, rnd) {
 				opts = append(opts, resource.WithInitialRecord(id, &traits.Hail{Id: id, Origin: &traits.Hail_Location{DisplayName: "o" + id}}))
 			}
 			m := hailpb.NewModel(opts...)
-			var full []string
-			for _, x := range m.ListHails() {
-				full = append(full, x.Id)
-			}
 			s := hailpb.NewModelServer(m)
-			return full, func(size int32, token string) (page, error) {
-				r, err := s.ListHails(ctx, &traits.ListHailsRequest{Name: "dev", PageSize: size, PageToken: token})
-				if err != nil {
-					return page{}, err
-				}
-				p := page{next: r.NextPageToken, total: int(r.TotalSize)}
-				for _, x := range r.Hails {
-					p.keys = append(p.keys, x.Id)
-				}
-				return p, nil
+			return &inst{
+				invents: true,
+				full: func() (full []string) {
+					for _, x := range m.ListHails() {
+						full = append(full, x.Id)
+					}
+					return
+				},
+				list: func(size int32, token string) (page, error) {
+					r, err := s.ListHails(ctx, &traits.ListHailsRequest{Name: "dev", PageSize: size, PageToken: token})
+					if err != nil {
+						return page{}, err
+					}
+					p := page{next: r.NextPageToken, total: int(r.TotalSize)}
+					for _, x := range r.Hails {
+						p.keys = append(p.keys, x.Id)
+					}
+					return p, nil
+				},
+				write: func(kind, key string, am bool) (string, string, string, error) {
+					switch kind {
+					case "create": // the id is the model's choice
+						h, err := s.CreateHail(ctx, &traits.CreateHailRequest{Name: "dev", Hail: &traits.Hail{}})
+						return "CreateHail", "add", h.GetId(), err
+					case "update":
+						_, err := m.UpdateHail(&traits.Hail{Id: key, State: traits.Hail_BOARDING})
+						return "Model.UpdateHail", "none", "", err
+					case "delete":
+						_, err := s.DeleteHail(ctx, &traits.DeleteHailRequest{Name: "dev", Id: key, AllowMissing: am})
+						return "DeleteHail", "remove", "", err
+					case "badmask":
+						_, err := m.UpdateHail(&traits.Hail{Id: key, State: traits.Hail_ARRIVED}, badMask)
+						return "Model.UpdateHail(bad mask)", "none", "", err
+					case "use":
+						_, err := s.UpdateHail(ctx, &traits.UpdateHailRequest{Name: "dev", Hail: &traits.Hail{Id: key, State: traits.Hail_DEPARTED}})
+						return "UpdateHail", "none", "", err
+					}
+					return "", "", "", nil
+				},
 			}
 		}},
-		{"parent.ListChildren", "lastkey", func(ids []string, rnd *rand.Rand) ([]string, func(int32, string) (page, error)) {
+		{"parent.ListChildren", "lastkey", func(ids []string, rnd *rand.Rand) *inst {
 			m := parentpb.NewModel()
 			for _, id := range shuffled(ids, rnd) {
 				m.AddChild(&traits.Child{Name: id})
 			}
-			// the listing's order is the one the RPC documents (sorted by name); the
-			// model's ListChildren returns the collection's order, which is the same
-			var full []string
-			for _, x := range m.ListChildren() {
-				full = append(full, x.Name)
-			}
 			s := parentpb.NewModelServer(m)
-			return full, func(size int32, token string) (page, error) {
-				r, err := s.ListChildren(ctx, &traits.ListChildrenRequest{Name: "dev", PageSize: size, PageToken: token})
-				if err != nil {
-					return page{}, err
-				}
-				p := page{next: r.NextPageToken, total: int(r.TotalSize)}
-				for _, x := range r.Children {
-					p.keys = append(p.keys, x.Name)
-				}
-				return p, nil
+			return &inst{
+				// the model's ListChildren returns the collection's order, the one the RPC pages through
+				full: func() (full []string) {
+					for _, x := range m.ListChildren() {
+						full = append(full, x.Name)
+					}
+					return
+				},
+				list: func(size int32, token string) (page, error) {
+					r, err := s.ListChildren(ctx, &traits.ListChildrenRequest{Name: "dev", PageSize: size, PageToken: token})
+					if err != nil {
+						return page{}, err
+					}
+					p := page{next: r.NextPageToken, total: int(r.TotalSize)}
+					for _, x := range r.Children {
+						p.keys = append(p.keys, x.Name)
+					}
+					return p, nil
+				},
+				// the trait has no write RPC; these are the model's own operations
+				write: func(kind, key string, am bool) (string, string, string, error) {
+					switch kind {
+					case "create":
+						m.AddChild(&traits.Child{Name: key}) // an existing name: documented no-op
+						return "Model.AddChild", "add", "", nil
+					case "update":
+						m.AddChildTrait(key, "smartcore.traits.OnOff") // documented to create the child if absent
+						return "Model.AddChildTrait", "add", "", nil
+					case "delete":
+						_, err := m.RemoveChildByName(key, resource.WithAllowMissing(am))
+						return "Model.RemoveChildByName", "remove", "", err
+					case "use":
+						m.RemoveChildTrait(key, "smartcore.traits.OnOff") // an absent child: documented nil
+						return "Model.RemoveChildTrait", "none", "", nil
+					}
+					return "", "", "", nil
+				},
 			}
 		}},
-		{"publication.ListPublications", "lastkey", func(ids []string, rnd *rand.Rand) ([]string, func(int32, string) (page, error)) {
+		{"publication.ListPublications", "lastkey", func(ids []string, rnd *rand.Rand) *inst {
 			m := publicationpb.NewModel()
 			for _, id := range shuffled(ids, rnd) {
 				if _, err := m.CreatePublication(&traits.Publication{Id: id, Body: []byte("b")}); err != nil {
 					hx.Fatal("publication CreatePublication %q: %v", id, err)
 				}
 			}
-			var full []string
-			for _, x := range m.ListPublications() {
-				full = append(full, x.Id)
-			}
 			s := publicationpb.NewModelServer(m)
-			return full, func(size int32, token string) (page, error) {
-				r, err := s.ListPublications(ctx, &traits.ListPublicationsRequest{Name: "dev", PageSize: size, PageToken: token})
-				if err != nil {
-					return page{}, err
-				}
-				p := page{next: r.NextPageToken, total: int(r.TotalSize)}
-				for _, x := range r.Publications {
-					p.keys = append(p.keys, x.Id)
-				}
-				return p, nil
+			return &inst{
+				full: func() (full []string) {
+					for _, x := range m.ListPublications() {
+						full = append(full, x.Id)
+					}
+					return
+				},
+				list: func(size int32, token string) (page, error) {
+					r, err := s.ListPublications(ctx, &traits.ListPublicationsRequest{Name: "dev", PageSize: size, PageToken: token})
+					if err != nil {
+						return page{}, err
+					}
+					p := page{next: r.NextPageToken, total: int(r.TotalSize)}
+					for _, x := range r.Publications {
+						p.keys = append(p.keys, x.Id)
+					}
+					return p, nil
+				},
+				write: func(kind, key string, am bool) (string, string, string, error) {
+					switch kind {
+					case "create":
+						_, err := s.CreatePublication(ctx, &traits.CreatePublicationRequest{Name: "dev", Publication: &traits.Publication{Id: key, Body: []byte("new")}})
+						return "CreatePublication", "add", "", err
+					case "update":
+						_, err := s.UpdatePublication(ctx, &traits.UpdatePublicationRequest{Name: "dev", Publication: &traits.Publication{Id: key, Body: []byte("upd")}})
+						return "UpdatePublication", "none", "", err
+					case "delete":
+						_, err := s.DeletePublication(ctx, &traits.DeletePublicationRequest{Name: "dev", Id: key, AllowMissing: am})
+						return "DeletePublication", "remove", "", err
+					case "badmask":
+						_, err := m.UpdatePublication(key, &traits.Publication{Id: key, Body: []byte("x")}, badMask)
+						return "Model.UpdatePublication(bad mask)", "none", "", err
+					case "refuse":
+						_, err := s.AcknowledgePublication(ctx, &traits.AcknowledgePublicationRequest{Name: "dev", Id: key, Version: "not-the-version", Receipt: traits.Publication_Audience_ACCEPTED})
+						return "AcknowledgePublication(stale version)", "none", "", err
+					case "use":
+						v := ""
+						if p, ok := m.GetPublication(key); ok {
+							v = p.Version
+						}
+						_, err := s.AcknowledgePublication(ctx, &traits.AcknowledgePublicationRequest{Name: "dev", Id: key, Version: v, Receipt: traits.Publication_Audience_ACCEPTED})
+						return "AcknowledgePublication", "none", "", err
+					}
+					return "", "", "", nil
+				},
 			}
 		}},
-		{"vending.ListConsumables", "lastkey", func(ids []string, rnd *rand.Rand) ([]string, func(int32, string) (page, error)) {
+		{"vending.ListConsumables", "lastkey", func(ids []string, rnd *rand.Rand) *inst {
 			m := vendingpb.NewModel()
 			for _, id := range shuffled(ids, rnd) {
 				if _, err := m.CreateConsumable(&traits.Consumable{Name: id, DisplayName: "d" + id}); err != nil {
 					hx.Fatal("vending CreateConsumable %q: %v", id, err)
 				}
 			}
-			var full []string
-			for _, x := range m.ListConsumables() {
-				full = append(full, x.Name)
-			}
 			s := vendingpb.NewModelServer(m)
-			return full, func(size int32, token string) (page, error) {
-				r, err := s.ListConsumables(ctx, &traits.ListConsumablesRequest{Name: "dev", PageSize: size, PageToken: token})
-				if err != nil {
-					return page{}, err
-				}
-				p := page{next: r.NextPageToken, total: int(r.TotalSize)}
-				for _, x := range r.Consumables {
-					p.keys = append(p.keys, x.Name)
-				}
-				return p, nil
+			return &inst{
+				full: func() (full []string) {
+					for _, x := range m.ListConsumables() {
+						full = append(full, x.Name)
+					}
+					return
+				},
+				list: func(size int32, token string) (page, error) {
+					r, err := s.ListConsumables(ctx, &traits.ListConsumablesRequest{Name: "dev", PageSize: size, PageToken: token})
+					if err != nil {
+						return page{}, err
+					}
+					p := page{next: r.NextPageToken, total: int(r.TotalSize)}
+					for _, x := range r.Consumables {
+						p.keys = append(p.keys, x.Name)
+					}
+					return p, nil
+				},
+				// the trait's RPCs do not write consumables; these are the model's own operations
+				write: func(kind, key string, am bool) (string, string, string, error) {
+					switch kind {
+					case "create":
+						_, err := m.CreateConsumable(&traits.Consumable{Name: key, DisplayName: "new"})
+						return "Model.CreateConsumable", "add", "", err
+					case "update":
+						_, err := m.UpdateConsumable(&traits.Consumable{Name: key, DisplayName: "upd"})
+						return "Model.UpdateConsumable", "none", "", err
+					case "delete":
+						_, err := m.DeleteConsumable(key, resource.WithAllowMissing(am))
+						return "Model.DeleteConsumable", "remove", "", err
+					case "badmask":
+						_, err := m.UpdateConsumable(&traits.Consumable{Name: key, DisplayName: "x"}, badMask)
+						return "Model.UpdateConsumable(bad mask)", "none", "", err
+					}
+					return "", "", "", nil
+				},
 			}
 		}},
-		{"vending.ListInventory", "lastkey", func(ids []string, rnd *rand.Rand) ([]string, func(int32, string) (page, error)) {
+		{"vending.ListInventory", "lastkey", func(ids []string, rnd *rand.Rand) *inst {
 			m := vendingpb.NewModel()
 			for _, id := range shuffled(ids, rnd) {
-				if _, err := m.CreateStock(&traits.Consumable_Stock{Consumable: id}); err != nil {
+				if _, err := m.CreateStock(&traits.Consumable_Stock{Consumable: id, Remaining: litres(10), Used: litres(0)}); err != nil {
 					hx.Fatal("vending CreateStock %q: %v", id, err)
 				}
 			}
-			var full []string
-			for _, x := range m.ListInventory() {
-				full = append(full, x.Consumable)
-			}
 			s := vendingpb.NewModelServer(m)
-			return full, func(size int32, token string) (page, error) {
-				r, err := s.ListInventory(ctx, &traits.ListInventoryRequest{Name: "dev", PageSize: size, PageToken: token})
-				if err != nil {
-					return page{}, err
-				}
-				p := page{next: r.NextPageToken, total: int(r.TotalSize)}
-				for _, x := range r.Inventory {
-					p.keys = append(p.keys, x.Consumable)
-				}
-				return p, nil
+			return &inst{
+				full: func() (full []string) {
+					for _, x := range m.ListInventory() {
+						full = append(full, x.Consumable)
+					}
+					return
+				},
+				list: func(size int32, token string) (page, error) {
+					r, err := s.ListInventory(ctx, &traits.ListInventoryRequest{Name: "dev", PageSize: size, PageToken: token})
+					if err != nil {
+						return page{}, err
+					}
+					p := page{next: r.NextPageToken, total: int(r.TotalSize)}
+					for _, x := range r.Inventory {
+						p.keys = append(p.keys, x.Consumable)
+					}
+					return p, nil
+				},
+				write: func(kind, key string, am bool) (string, string, string, error) {
+					switch kind {
+					case "create":
+						_, err := m.CreateStock(&traits.Consumable_Stock{Consumable: key, Remaining: litres(5), Used: litres(0)})
+						return "Model.CreateStock", "add", "", err
+					case "update":
+						_, err := s.UpdateStock(ctx, &traits.UpdateStockRequest{Name: "dev", Stock: &traits.Consumable_Stock{Consumable: key, Remaining: litres(7), Used: litres(3)}})
+						return "UpdateStock", "none", "", err
+					case "delete":
+						_, err := m.DeleteStock(key, resource.WithAllowMissing(am))
+						return "Model.DeleteStock", "remove", "", err
+					case "badmask":
+						_, err := m.UpdateStock(&traits.Consumable_Stock{Consumable: key, Remaining: litres(1)}, badMask)
+						return "Model.UpdateStock(bad mask)", "none", "", err
+					case "refuse": // a weight cannot be taken from a stock kept in litres
+						_, err := s.Dispense(ctx, &traits.DispenseRequest{Name: "dev", Consumable: key, Quantity: &traits.Consumable_Quantity{Unit: traits.Consumable_KILOGRAM, Amount: 1}})
+						return "Dispense(inconvertible unit)", "none", "", err
+					case "use":
+						_, err := s.Dispense(ctx, &traits.DispenseRequest{Name: "dev", Consumable: key, Quantity: litres(1)})
+						return "Dispense", "none", "", err
+					}
+					return "", "", "", nil
+				},
 			}
 		}},
-		{"waste.ListWasteRecords", "index", func(ids []string, rnd *rand.Rand) ([]string, func(int32, string) (page, error)) {
+		{"waste.ListWasteRecords", "index", func(ids []string, rnd *rand.Rand) *inst {
 			m := wastepb.NewModel()
 			clearWaste(m) // NewModel invents 100 records; the case decides the contents
-			order := shuffled(ids, rnd)
+			var order []string
 			t0 := time.Unix(1700000000, 0)
-			for i, id := range order {
-				ts := timestamppb.New(t0.Add(time.Duration(i) * time.Minute))
-				if _, err := m.AddWasteRecord(&traits.WasteRecord{Id: id, WasteCreateTime: ts, RecordCreateTime: ts}); err != nil {
+			add := func(id string) error {
+				ts := timestamppb.New(t0.Add(time.Duration(len(order)) * time.Minute))
+				_, err := m.AddWasteRecord(&traits.WasteRecord{Id: id, WasteCreateTime: ts, RecordCreateTime: ts})
+				if err == nil {
+					order = append(order, id)
+				}
+				return err
+			}
+			for _, id := range shuffled(ids, rnd) {
+				if err := add(id); err != nil {
 					hx.Fatal("waste AddWasteRecord %q: %v", id, err)
 				}
-			}
-			// the listing is newest first (ListWasteRecords' documentation): the model has
-			// no un-paged list, its order of insertion reversed is the listing
-			full := make([]string, 0, len(order))
-			for i := len(order) - 1; i >= 0; i-- {
-				full = append(full, order[i])
 			}
 			if c := m.GetWasteRecordCount(); c != len(order) {
 				hx.Fatal("waste model holds %d records, wanted %d", c, len(order))
 			}
 			s := wastepb.NewModelServer(m)
-			return full, func(size int32, token string) (page, error) {
-				r, err := s.ListWasteRecords(ctx, &traits.ListWasteRecordsRequest{Name: "dev", PageSize: size, PageToken: token})
-				if err != nil {
-					return page{}, err
-				}
-				p := page{next: r.NextPageToken, total: int(r.TotalSize)}
-				for _, x := range r.WasteRecords {
-					p.keys = append(p.keys, x.Id)
-				}
-				return p, nil
+			return &inst{
+				// the listing is newest first (ListWasteRecords' documentation): the model has
+				// no un-paged list, its order of insertion reversed is the listing
+				full: func() []string {
+					full := make([]string, 0, len(order))
+					for i := len(order) - 1; i >= 0; i-- {
+						full = append(full, order[i])
+					}
+					return full
+				},
+				list: func(size int32, token string) (page, error) {
+					r, err := s.ListWasteRecords(ctx, &traits.ListWasteRecordsRequest{Name: "dev", PageSize: size, PageToken: token})
+					if err != nil {
+						return page{}, err
+					}
+					p := page{next: r.NextPageToken, total: int(r.TotalSize)}
+					for _, x := range r.WasteRecords {
+						p.keys = append(p.keys, x.Id)
+					}
+					return p, nil
+				},
+				// appending a record is the trait model's only write (ids are not unique keys there:
+				// a record whose id is already listed is not added by the harness)
+				write: func(kind, key string, am bool) (string, string, string, error) {
+					if kind != "create" {
+						return "", "", "", nil
+					}
+					for _, id := range order {
+						if id == key {
+							return "", "", "", nil
+						}
+					}
+					return "Model.AddWasteRecord", "add", "", add(key)
+				},
 			}
 		}},
 	}
@@ -369,33 +597,114 @@ func firstToken(scheme string, variant int, full []string) (class, token string)
 	}
 }
 
+type keyBook struct {
+	label map[string][]int // stored key -> spec key
+}
+
+func (b *keyBook) of(k string) []int {
+	if l, ok := b.label[k]; ok {
+		return l
+	}
+	return []int{0} // a key no write of the case put there
+}
+
 func runCase(idx int, c pagingCase, t target, out *hx.Out) {
 	ids := make([]string, len(c.IDs))
+	book := &keyBook{label: map[string][]int{}}
 	for i, id := range c.IDs {
 		ids[i] = idString(id)
+		book.label[ids[i]] = id
 	}
 	rnd := hx.Rand(int64(idx)*131 + int64(len(t.name)))
-	var full []string
-	var list func(int32, string) (page, error)
-	if p := hx.Catch(func() { full, list = t.fill(ids, rnd) }); p != "" {
+	var in *inst
+	if p := hx.Catch(func() { in = t.fill(ids, rnd) }); p != "" {
 		hx.Fatal("filling %s with %d ids panicked: %s", t.name, len(ids), p)
 	}
+	sample := ""
+	if len(ids) > 0 {
+		sample = fmt.Sprintf("%q", shuffled(ids, rnd)[:min(4, len(ids))])
+	}
+	if c.K != "hist" {
+		o := walkObs{K: c.K, Case: idx, Srv: t.name, Scheme: t.scheme, Size: c.Size, TClass: "none", Sample: sample,
+			Init: [][]int{}, Ops: []writeObs{}, FlatKeys: [][]int{}}
+		walk(in, &o, c.Variant, nil)
+		out.Write(o)
+		return
+	}
+	// a history: writes, a walk, more writes, another walk; every walk is one line carrying
+	// the collection the case started with and all writes so far with what they did
+	init := c.IDs
+	if init == nil {
+		init = [][]int{}
+	}
+	ops := []writeObs{}
+	stored := map[string]string{} // spec key -> key the model chose (hail)
+	for si, sg := range c.Segs {
+		for _, op := range sg.Ops {
+			w := writeObs{Kind: op.Kind, Key: op.Key, AM: op.AM}
+			want := idString(op.Key)
+			key := want
+			if k, ok := stored[want]; ok {
+				key = k
+			}
+			skip := false
+			if in.invents && op.Kind == "create" {
+				// a create under a key of the model's choice can stand for the spec's create only
+				// while the spec key is not in use
+				for _, k := range in.full() {
+					skip = skip || k == key
+				}
+			}
+			if in.write != nil && !skip {
+				var call, eff, got string
+				var err error
+				p := hx.Catch(func() { call, eff, got, err = in.write(op.Kind, key, op.AM) })
+				w.Call, w.Eff, w.Sup = call, eff, call != "" || p != ""
+				w.Err = hx.Code(err)
+				if p != "" {
+					w.Err = "Panic: " + p
+				}
+				w.OK = w.Sup && err == nil && p == ""
+				if w.OK && w.Eff == "add" {
+					if got != "" { // the model chose the key
+						if _, live := book.label[got]; !live {
+							stored[want] = got
+							book.label[got] = op.Key
+						}
+					} else {
+						book.label[want] = op.Key
+					}
+				}
+			}
+			ops = append(ops, w)
+		}
+		o := walkObs{K: "hist", Case: idx, Srv: t.name, Scheme: t.scheme, Size: sg.Size, TClass: "none", Sample: sample,
+			Init: init, Ops: append([]writeObs{}, ops...), Seg: si + 1, FlatKeys: [][]int{}}
+		walk(in, &o, 0, book)
+		out.Write(o)
+	}
+}
+
+// walk follows one token chain on in and fills o.
+func walk(in *inst, o *walkObs, variant int, book *keyBook) {
+	var full []string
+	if p := hx.Catch(func() { full = in.full() }); p != "" {
+		hx.Fatal("%s: the model's un-paged list panicked: %s", o.Srv, p)
+	}
 	rank := make(map[string]int, len(full))
-	sorted := true
+	o.Sorted = true
 	for i, k := range full {
 		rank[k] = i + 1
 		if i > 0 && !(full[i-1] < k) {
-			sorted = false
+			o.Sorted = false
 		}
 	}
-	o := walkObs{K: c.K, Case: idx, Srv: t.name, Scheme: t.scheme, N: len(full), Size: c.Size, TClass: "none",
-		Flat: []int{}, Lens: []int{}, Totals: []int{}, Sorted: sorted, Bound: 2*len(full) + 5}
-	if len(ids) > 0 {
-		o.Sample = fmt.Sprintf("%q", shuffled(ids, rnd)[:min(4, len(ids))])
-	}
+	o.N = len(full)
+	o.Flat, o.Lens, o.Totals = []int{}, []int{}, []int{}
+	o.Bound = 2*len(full) + 5
 	token := ""
-	if c.K == "tok" {
-		o.TClass, token = firstToken(t.scheme, c.Variant, full)
+	if o.K == "tok" {
+		o.TClass, token = firstToken(o.Scheme, variant, full)
 	}
 	o.Token = token
 	for {
@@ -405,7 +714,7 @@ func runCase(idx int, c pagingCase, t target, out *hx.Out) {
 		o.Calls++
 		var p page
 		var err error
-		o.Panic = hx.Catch(func() { p, err = list(int32(c.Size), token) })
+		o.Panic = hx.Catch(func() { p, err = in.list(int32(o.Size), token) })
 		if o.Panic != "" {
 			o.Err = "Panic"
 			o.Ended = true
@@ -421,6 +730,9 @@ func runCase(idx int, c pagingCase, t target, out *hx.Out) {
 		}
 		for _, k := range p.keys {
 			o.Flat = append(o.Flat, rank[k]) // 0 if the server returned something that is not in the listing
+			if book != nil {
+				o.FlatKeys = append(o.FlatKeys, book.of(k))
+			}
 		}
 		o.Lens = append(o.Lens, len(p.keys))
 		o.Totals = append(o.Totals, p.total)
@@ -433,7 +745,6 @@ func runCase(idx int, c pagingCase, t target, out *hx.Out) {
 	if o.Calls == 1 && o.Panic != "" {
 		o.First = "Panic"
 	}
-	out.Write(o)
 }
 
 func main() {
